@@ -49,7 +49,7 @@ def shards(tier, seed):
     for shp in b["shapes"]:
         size = int(np.prod(shp))
         for extra in (0, 1):
-            nparts = 1 if size <= 4 else (2 if tier == "quick" else 12)
+            nparts = {1: 1, 2: 1, 3: 2, 4: 6}.get(size, 4 if tier == "quick" else 24)
             for part in range(nparts):
                 out.append(dict(shape=list(shp), extra=extra, part=part, nparts=nparts, tier=tier,
                                 stratum=list(b["stratum"]) if (b["stratum"] and size > b["max_full"]) else None))
